@@ -128,6 +128,16 @@ CLAIMS = [
              "request answered, refused => no effect live and after restart, accepted => exactly KV!Apply.",
      "note": "dimension 4, sequential requests on one connection; SIGKILL restarts do not lose page cache (C01 owns that); two defects found by this check were repaired by fix: commits",
      "ref": "DESIGN.md section 6 (C15)"},
+    {"id": "C19",
+     "technique": "TLC model check of the token-bucket protocol (RateLimit.tla) + multi-threaded runs of the real RateLimiter recorded with caller-clock intervals -> TLC trace validation against the rate envelope (RateEnvelope.tla)",
+     "text": "RateLimit.tla models check_limit at critical-section granularity (tenant consume, global consume, refund, ticks) and TLC checks the window "
+             "bounds, refund neutrality and no-starvation invariants for every interleaving of 2-3 callers (the pre-repair protocol is kept as an expected "
+             "counterexample); ratelab drives the real limiter from 1-8 (64) threads over a seeded grid of rates / global rates / tenants / patterns and "
+             "records every admitted call and sampled refusals with before/after timestamps; RateEnvelope.tla (TLC) checks every window "
+             "[before_i, after_j] against burst + rate*len and the sound lower clause for refusals.",
+     "note": "interval reasoning only (the bound checked is never tighter than the real one; 10 millitoken slack for f64 rounding); server rows copy the server's "
+             "derivation of limiter parameters; the refund-after-refill defect found by this check was repaired by a fix: commit",
+     "ref": "DESIGN.md section 6 (C19)"},
 ]
 
 _PENDING = "not yet covered by the specification suite in this revision (see DESIGN.md section 11 for the construction order)"
